@@ -1638,17 +1638,17 @@ func c11IntegerExact(c *Ctx, r *Report, rule string) {
 // Clauses added in round 5, appended to the explanation each evidence file carries.
 func init() {
 	extra := map[string]string{
-		"C01": " Round 5: (a') each class a path of processLineSync counts is backed by its documented decision on that path; (c') from every append of a match every path to the worker's exit sends the slice; (h') with -z every successful open passed the gzip probe; (i) the C04-a buffer discipline (lines waiting in a batch are not overwritten).",
-		"C02": " Round 5: (f') under the posix flag the regexp handed back comes from CompilePOSIX or had Longest() called.",
+		"C01": " Round 5: (a') each class a path of processLineSync counts is backed by its documented decision on that path; (c') from every append of a match every path to the worker's exit sends the slice; (h') with -z every successful open passed the gzip probe; (i) the C04-a buffer discipline (lines waiting in a batch are not overwritten). Round 6: the reader-slot pairing of OpenFilesToChan (every named input gets its reader).",
+		"C02": " Round 5: (f') under the posix flag the regexp handed back comes from CompilePOSIX or had Longest() called. Round 6: a method of the regexp wrapper that shadows a promoted matching method returns the embedded method's result for the same argument.",
 		"C03": " Round 5: UseCRLF is never switched on and a method shadowing the promoted csv Write forwards its record unchanged; the C06-b error-counting rules (the exit status reads that count); the parsed increment is one field of the sample.",
 		"C05": " Round 5: a slice/map field copied into a local under the lock is not used after the unlock (nor returned) while the storage is updated in place elsewhere; a worker forwards every match it collected before it exits; typed stage closures write no captured variable.",
 		"C06": " Round 5: with -z every path to a successful return of the opener passes gzip.NewReader.",
-		"C07": " Round 5: the text parsed as increment is the splitter's next field (or a strings.Split element, or the sample itself).",
+		"C07": " Round 5: the text parsed as increment is the splitter's next field (or a strings.Split element, or the sample itself). Round 6: map entries of an aggregator are deleted by trimming methods only.",
 		"C09": " Round 5: CompilerErrors.add appends on every path and inherit adds every element.",
-		"C10": " Round 5: the context touch is the wrapped context's GetMatch with the index as it came in; typed stage closures write no captured variable.",
+		"C10": " Round 5: the context touch is the wrapped context's GetMatch with the index as it came in; typed stage closures write no captured variable. Round 6: a context touch uses a negative constant index.",
 		"C11": " Round 5: no rune is cut down to a byte without a range fact; the binary operation of an arithmetic helper is only applied as acc = op(acc, next) inside the stage closure; no integer value takes a round trip through float64.",
 		"C12": " Round 5: an iteration of the pattern compiler that parsed a placeholder ends with an error or appends it as a token of its own.",
-		"C13": " Round 5: while Reverse negates, no function consults a comparator it received in both argument orders.",
+		"C13": " Round 5: while Reverse negates, no function consults a comparator it received in both argument orders. Round 6: in the sorting package instants are compared at full precision (no Unix()/UnixMilli() projection).",
 		"C14": " Round 5: the magnitude a renderer hands to SparkWrite / HeatWrite / BarWrite is a Scaler.Scale result, never a literal.",
 		"C16": " Round 5: the index / slice / loop obligations of pkg/minijson are discharged (E-PANIC).",
 		"C17": " Round 5: array-typed fields of a pooled context (vals) count as state: every element is assigned before each use.",
